@@ -10,8 +10,26 @@ import TantivyModel.Proofs.BlockWandMain
 Property theorems only. `gt` is the strict part of the comparator (`compare(a,b) == Greater`),
 assumed to be a strict weak order (`StrictWeak`); `sel` is `select_nth_unstable_by`, assumed to
 satisfy its documented contract (`SelectNth`); both are universally quantified.
-Keys `NaN` (for which `partial_cmp(..).unwrap_or(Equal)` is not a weak order) and the sentinel
-`Score::MIN` (modelled as "no threshold") are outside the model.
+
+## What the model assumes about keys (NaN, the `Score::MIN` sentinel)
+
+* Every theorem about an order takes `hgt : StrictWeak gt`. For integer, date, string keys and
+  for floats WITHOUT NaN the comparators of `order.rs` are strict weak orders. With a NaN key
+  `NaturalComparator::compare = partial_cmp(..).unwrap_or(Equal)` makes NaN "equal" to every
+  key; incomparability is then not transitive (`1 ~ NaN ~ 2` but `1 < 2`) and `StrictWeak` is
+  FALSE. Nothing is claimed about the ORDER of a result containing NaN keys; the harness (part D)
+  still checks no panic / result size / no duplicates / true keys, and found the std sorts of
+  the collector panicking on the inconsistent comparator (known finding
+  `C06:nan-sort-key-sort-panics`); a NaN threshold rejecting every later, strictly better
+  comparable document is reported as an observation.
+* The threshold of the pruning callback is an `Option` here: `none` = "nothing to beat"
+  (`above gt k none = true`). The code uses the value `Score::MIN` (= `f32::MIN`) for `none` and
+  the strict test `score > threshold`, so the two agree exactly for scores `> f32::MIN`. A score
+  equal to `f32::MIN`, `-∞` or NaN is never offered by `for_each_pruning(Score::MIN, ..)`: such
+  documents are outside the model and missing from the real result (known finding
+  `C06:score-not-above-f32-min-never-collected`).
+* In the integer-score WAND theorems a threshold is a `Nat`, a document with total score 0 does
+  not match, and `θ₀ = 0` plays the role of the sentinel: positive scores only.
 -/
 namespace TantivyModel.C06
 open TantivyModel TantivyModel.TopN List
